@@ -17,6 +17,11 @@ Record sig_rec := mkSig {
   sg_enum : option handle;     (* EnumSignal.enum *)
 }.
 
+(* attributes: kind and range of an attribute definition, value of an assignment.  Float bounds and
+   values are given in thousandths; strings are opaque keys like names *)
+Inductive attr_kind := AString | AInt (mn mx : Z) | AFloat (mn mx : Z) | AEnum (values : list name).
+Inductive attr_value := VInt (z : Z) | VFloat (z : Z) | VStr (x : name) | VOther.
+
 Record state3 := mkState3 {
   base : state;
   sigs : gmap handle sig_rec;
@@ -27,13 +32,14 @@ Record state3 := mkState3 {
   assigns : gmap handle (gset handle);       (* withAttributes.attAssignments of an entity: attributes *)
   builder_refs : gmap handle (gset handle);  (* CANIDBuilder.refs: buses *)
   bus_builder : gmap handle handle;          (* Bus.canIDBuilder when it is not the default builder *)
+  attrs : gmap handle attr_kind;             (* attribute definitions: kind and range *)
 }.
 
 Global Instance eta_sig : Settable _ := settable! mkSig <sg_kind; sg_type; sg_unit; sg_enum>.
 Global Instance eta_state3 : Settable _ :=
-  settable! mkState3 <base; sigs; type_refs; unit_refs; enum_refs; attr_refs; assigns; builder_refs; bus_builder>.
+  settable! mkState3 <base; sigs; type_refs; unit_refs; enum_refs; attr_refs; assigns; builder_refs; bus_builder; attrs>.
 
-Definition init3 : state3 := mkState3 init ∅ ∅ ∅ ∅ ∅ ∅ ∅ ∅.
+Definition init3 : state3 := mkState3 init ∅ ∅ ∅ ∅ ∅ ∅ ∅ ∅ ∅.
 
 Definition refs_of (m : gmap handle (gset handle)) (h : handle) : gset handle := default ∅ (m !! h).
 Definition add_ref (h x : handle) (m : gmap handle (gset handle)) : gmap handle (gset handle) :=
@@ -57,10 +63,12 @@ Inductive op3 :=
   | StdSetType (sg : handle) (ot : option handle) (fits : bool)
   | StdSetUnit (sg : handle) (ou : option handle)
   | EnumSetEnum (sg : handle) (oe : option handle) (fits : bool)
-  | Assign (ent : handle) (oa : option handle) (verr : option cause)   (* verr: the value check of the attribute *)
+  | Assign (ent : handle) (oa : option handle) (v : attr_value)        (* the value check is derived from the kind of the attribute *)
   | RemoveAssign (ent key : handle)
   | RemoveAllAssign (ent : handle)
-  | BusSetBuilder (b : handle) (ocb : option handle).
+  | BusSetBuilder (b : handle) (ocb : option handle)
+  | NewAttr (k : attr_kind)                            (* NewStringAttribute / NewIntegerAttribute / NewFloatAttribute / NewEnumAttribute *)
+  | AttrClone (a : handle).                            (* Attribute.Clone: a new definition of the same kind, no references *)
 
 (* NewStandardSignal(name, typ) *)
 Definition new_std_signal (s : state3) (ot : option handle) : state3 * result :=
@@ -137,6 +145,36 @@ Definition assign_attr (s : state3) (ent : handle) (oa : option handle) (verr : 
     end
   end.
 
+(* the value check of withAttributes.addAttributeAssignment: the dynamic type of the value against the
+   kind of the attribute, then its range / membership *)
+Definition attr_verr (k : attr_kind) (v : attr_value) : option cause :=
+  match v, k with
+  | VInt z, AInt mn mx => if ((z <? mn) || (mx <? z))%Z then Some OutOfBounds else None
+  | VInt _, _ => Some InvalidType
+  | VFloat z, AFloat mn mx => if ((z <? mn) || (mx <? z))%Z then Some OutOfBounds else None
+  | VFloat _, _ => Some InvalidType
+  | VStr _, AString => None
+  | VStr x, AEnum vs => if bool_decide (x ∈ vs) then None else Some NotFound
+  | VStr _, _ => Some InvalidType
+  | VOther, _ => Some InvalidType
+  end.
+
+Definition assign_value (s : state3) (ent : handle) (oa : option handle) (v : attr_value) : state3 * result :=
+  match oa with
+  | None => assign_attr s ent None None
+  | Some a =>
+    match attrs s !! a with
+    | Some k => assign_attr s ent oa (attr_verr k v)
+    | None => bad3 s
+    end
+  end.
+
+Definition new_attr (s : state3) (k : attr_kind) : state3 * result :=
+  let '(h, s) := alloc3 s in ok3 (s <| attrs ::= <[h := k]> |>).
+
+Definition attr_clone (s : state3) (a : handle) : state3 * result :=
+  match attrs s !! a with Some k => new_attr s k | None => bad3 s end.
+
 (* withAttributes.removeAttributeAssignment *)
 Definition remove_assign (s : state3) (ent key : handle) : state3 * result :=
   if decide (key ∈ refs_of (assigns s) ent) then
@@ -164,10 +202,12 @@ Definition step3 (s : state3) (o : op3) : state3 * result :=
   | StdSetType sg ot f => std_set_type s sg ot f
   | StdSetUnit sg ou => std_set_unit s sg ou
   | EnumSetEnum sg oe f => enum_set_enum s sg oe f
-  | Assign e oa v => assign_attr s e oa v
+  | Assign e oa v => assign_value s e oa v
   | RemoveAssign e k => remove_assign s e k
   | RemoveAllAssign e => remove_all_assign s e
   | BusSetBuilder b ocb => bus_set_builder s b ocb
+  | NewAttr k => new_attr s k
+  | AttrClone a => attr_clone s a
   end.
 
 Definition run3 (ops : list op3) : state3 := fold_left (λ s o, (step3 s o).1) ops init3.
